@@ -2,6 +2,7 @@
 import itertools
 import conv
 
+EXTRA_ANCHORS = ['assembly/scripts/pretext_to_asm.py']      # the order scaffolds are written in is decided there too (merge of haplotypes)
 LEVEL = "proof"
 RULE = ("exhaustive names of length <=4 (thorough: <=5) over {I,V,X,1,0,_,a}; random names over letters/digits/_-. with I/V/X runs; all "
         "permutations of name sets <=5 through the real sort. Non-trivial = distinct token-shape signatures (text/num/numeral pattern).")
@@ -167,7 +168,7 @@ def run(ctx):
     # the order scaffolds are WRITTEN in: every output file of the command-line tool holds its assembly's scaffolds in the (rank, natural key)
     # order computed in memory — also the file that merges several haplotypes in Primary mode (each haplotype keeps its order; wave 13, C20k)
     import remap_lib as R
-    cli_cases = [R.make_case(ctx.rng, k) for k in ("tagged", "tagged2", "primarymode", "primarynames", "primarynames") for _ in range(40 if ctx.thorough else 6)]
+    cli_cases = [R.make_case(ctx.rng, k) for k in ("tagged", "tagged2", "primarymode", "primarynames", "primarynames", "primarynames") for _ in range(60 if ctx.thorough else 8)]
     R.run_cli_cases(ctx, "cli-file-order", cli_cases, None, only=["does not contain exactly", "unexpected assembly files", "output file"])
 
 
@@ -276,6 +277,9 @@ def search(ctx, broken):
         names = ["".join(t) for n in range(0, 6) for t in itertools.product(ALPHA, repeat=n)]
         check_names(ctx, "search-names", names)
         order_oracles(ctx, "search-order", ctx.rng, 3000)
+        import remap_lib as R
+        R.run_cli_cases(ctx, "search-cli-file-order", [R.make_case(ctx.rng, k) for k in ("primarynames", "primarymode", "tagged2") for _ in range(120)], None,
+                        only=["does not contain exactly", "unexpected assembly files", "output file"])
         pool = ["SUPER_1", "SUPER_2", "SUPER_10", "scaffold_7", "H_1", "I", "IV", "a1", ""]
         perm_check(ctx, "search-sort", [([ctx.rng.choice(pool) for _ in range(k)], [ctx.rng.choice([None, 0, 1, 2, 3]) for _ in range(k)])
                                         for k in (1, 2, 2, 3, 3, 4) for _ in range(60)])
